@@ -772,8 +772,11 @@ def behaviour_compare(ws, todo, allcases, by_name, xl, subdir, max_mism=200):
                 elif o[0] != 'R' and (o[0] == 'G' or o[3] != 0 or r0 != 0):
                     distinct.add((name, o[1], o[0]))
                 if bad:
-                    if len(mism) < max_mism:
-                        mism.append({'decl': name, 'scenario': si, 'r0': r0, 'ops': [list(x) for x in ops[:oi + 1]], 'op_index': oi,
+                    concrete = bad.startswith(('compiled code differs from the specification', 'dev and release', 'Option<enum>'))
+                    n_conc = sum(1 for x in mism if x is not None and x.get('_c'))
+                    n_other = sum(1 for x in mism if x is not None and not x.get('_c'))
+                    if (concrete and n_conc < max_mism) or (not concrete and n_other < max(1, max_mism // 4)):
+                        mism.append({'_c': concrete, 'decl': name, 'scenario': si, 'r0': r0, 'ops': [list(x) for x in ops[:oi + 1]], 'op_index': oi,
                                      'field': o[1] if o[0] in 'GWS' else None, 'op': o[0], 'what': bad,
                                      'rust_dev': rs['dev'][oi], 'rust_release': rs['release'][oi],
                                      'eval_checked': ec, 'eval_unchecked': eu, 'spec': sp})
@@ -782,6 +785,9 @@ def behaviour_compare(ws, todo, allcases, by_name, xl, subdir, max_mism=200):
                     break
     n_m = len(mism)
     mism = [m for m in mism if m is not None]
+    mism.sort(key=lambda m: not m.get('_c', True))        # mismatches against the specification first
+    for m in mism:
+        m.pop('_c', None)
     return {'programs': len(todo), 'scenarios': n_scen, 'ops': n_ops, 'stats': stats, 'distinct': len(distinct),
             'mismatches': mism, 'n_mismatches': n_m}
 
